@@ -642,6 +642,8 @@ class SimulateOde(DeterministicOde):
         '''
 
         dX=np.array(dX)   # convert to numpy array so we can interpolate between timepoints
+        if dX.size==0:    # no event fired before the horizon (e.g. started in an absorbing state)
+            dX=dX.reshape((0, self.num_events))
 
         dims=dX.shape         # Get dimensions of data (timepoints x n_trans)
         n_trans=dims[1]
